@@ -365,7 +365,7 @@ func c16RunScript(r *verifkit.Run, sc c16Script, desc string, idents []*identity
 
 	handlers := make([]*c16Handler, len(sc.Handlers))
 	for i := range handlers {
-		ctx, cancel := context.WithCancel(context.Background())
+		ctx, cancel := c16HandlerCtx(i)
 		handlers[i] = &c16Handler{ctx: ctx, cancel: cancel}
 	}
 	register := func(h int) {
@@ -697,4 +697,44 @@ func c16chInitUnmarshalers(c *channel) *channel {
 	}
 	reflect.NewAt(f.Type(), unsafe.Pointer(f.UnsafeAddr())).Elem().Set(reflect.MakeMap(f.Type()))
 	return c
+}
+
+// c16dlCtx is a context that ends the way a deadline context does (Done
+// closed, Err() == context.DeadlineExceeded) but at a point the script
+// chooses instead of a wall-clock instant.
+type c16dlCtx struct {
+	done chan struct{}
+	once sync.Once
+	mu   sync.Mutex
+	err  error
+}
+
+func c16NewDlCtx() *c16dlCtx { return &c16dlCtx{done: make(chan struct{})} }
+
+func (c *c16dlCtx) Deadline() (time.Time, bool)   { return time.Time{}, false }
+func (c *c16dlCtx) Done() <-chan struct{}         { return c.done }
+func (c *c16dlCtx) Value(interface{}) interface{} { return nil }
+func (c *c16dlCtx) Err() error {
+	c.mu.Lock()
+	defer c.mu.Unlock()
+	return c.err
+}
+func (c *c16dlCtx) end() {
+	c.once.Do(func() {
+		c.mu.Lock()
+		c.err = context.DeadlineExceeded
+		c.mu.Unlock()
+		close(c.done)
+	})
+}
+
+// c16HandlerCtx gives every second handler a context that ends by "deadline"
+// rather than by cancel(): a receiver must see nothing after its context is
+// done, whatever the reason.
+func c16HandlerCtx(i int) (context.Context, context.CancelFunc) {
+	if i%2 == 1 {
+		c := c16NewDlCtx()
+		return c, c.end
+	}
+	return context.WithCancel(context.Background())
 }
